@@ -924,6 +924,9 @@ class CollapseCollector(WrappingCollector):
         self.collapsed_counts = defaultdict(int)
         # Total number of documents filtered out by collapsing
         self.collapsed_total = 0
+        # Number of documents that were given to the child collector but later
+        # replaced by a better document with the same key
+        self._replaced_total = 0
 
         # If the keyer or orderer require a valid matcher, tell the child
         # collector we need it
@@ -961,7 +964,9 @@ class CollapseCollector(WrappingCollector):
 
     def count(self):
         if self.child.computes_count():
-            return self.child.count() - self.collapsed_total
+            # The child only counted the documents that were passed on to it;
+            # of those, the ones replaced later are no longer in the results
+            return self.child.count() - self._replaced_total
         else:
             return ilen(self.all_ids())
 
@@ -1004,6 +1009,10 @@ class CollapseCollector(WrappingCollector):
                     # Tell the child collector to remove the document
                     child.remove(best.pop()[1])
                     add = True
+                    # The replaced document was collapsed away too
+                    collapsed_counts[ckey] += 1
+                    self.collapsed_total += 1
+                    self._replaced_total += 1
 
                 if add:
                     insort(best, (sortkey, global_docnum))
